@@ -779,6 +779,8 @@ class Interp(ExprMixin):
                 return True
         if isinstance(v, AbsList) and v.minlen > 0:
             return True
+        if isinstance(v, Sym) and v.op in ("visit", "exc", "typeof"):
+            return True  # the translation of a node is a non-empty expression object
         key = "truth(" + _describe(v) + ")"
         if key in self.truth:
             return self.truth[key]
